@@ -1201,7 +1201,9 @@ class PathEval(AutoEvaluator):
                     return ut[1][0]
                 ui = unfn(ix) if ix is not None else None
                 if ix is not None and (ui is None or not (ui[0].startswith("ax") or ui[0] == "tuple")):
-                    return F.fn("idx", ut[1][0], F.fn("ax1", ix))
+                    r = F.fn("idx", ut[1][0], F.fn("ax1", ix))
+                    # (one position gives a vector, which has no orientation; an index vector gives the selected columns as rows: X.T[I] = X[:, I].T)
+                    return r if (sym_name(ix) in self.trace.loop_syms or need(ix).is_const()) else F.fn("attr:T", r)
             if self.opts.load_hook is not None:
                 r = self.opts.load_hook(self, base, ix)
                 if r is not NotImplemented:
